@@ -502,8 +502,67 @@ def compress(A):
     A.edges = sorted({(ren[s], l, ren[d]) for s, l, d in edges if s in reach}, key=lambda e: (e[0], str(e[1]), e[2]))
     A.init = ren[A.init]
     A.n = len(ren)
+    # labels become sequences of primitive actions
+    A.edges = [(s, (l,), d) for s, l, d in A.edges]
+    glue_local(A)
     A.has_out = {s for s, _, _ in A.edges}
     return A
+
+
+# Reduction of the interleaving space (Lipton): an action may be executed atomically together with
+# the action that precedes it in the same thread if it is
+#  * LOCAL: it touches only state private to the executing thread (its registers, ghost counters
+#    nobody else reads, the consumer's own choices) and is never blocked; or
+#  * a LEFT mover: never blocked and it can only ENABLE actions of other threads, never disable
+#    one or change their effect: dropping a *sender* (only `recv .. closed` guards look at the
+#    sender counts, and they require zero), the end of a thread or job, `execute`/`spawn`
+#    (create a runnable job/thread), `clone` of a sender (the cloner holds a live sender, so the
+#    count is >= 1 before and after and no `== 0` guard changes), channel creation (before any
+#    other thread exists).
+# Dropping a receiver, sends, receives, joins are NOT glued.  No reachable state at the remaining
+# control points is lost.
+LOCAL = {"tau", "init_r", "init_d", "consumer_enter", "c_next", "c_stop", "deliver", "deliver_err", "deliver_none",
+         "replace_cur", "pool_enter", "work", "fill"}
+LEFT = {"end", "execute", "spawn", "clone", "chan"}
+
+
+def gluable(prim):
+    if prim[0] in LOCAL or prim[0] in LEFT:
+        return True
+    if prim[0] == "drop":
+        return all(ep in ("sD", "sE") for ep in prim[1])
+    return False
+
+
+def glue_local(A):
+    changed = True
+    while changed:
+        changed = False
+        out = {}
+        inc = {}
+        for e in A.edges:
+            out.setdefault(e[0], []).append(e)
+            inc.setdefault(e[2], []).append(e)
+        for q in sorted(out):
+            if q == A.init or not inc.get(q):
+                continue
+            es = out[q]
+            if any(e[2] == q for e in es):
+                continue
+            if all(gluable(e[1][0]) for e in es):
+                new = [e for e in A.edges if e[0] != q and e[2] != q]
+                for (p, L, _) in inc[q]:
+                    for (_, L2, r) in es:
+                        new.append((p, L + L2, r))
+                A.edges = new
+                changed = True
+                break
+    # renumber
+    used = sorted({A.init} | {e[0] for e in A.edges} | {e[2] for e in A.edges})
+    ren = {s: i for i, s in enumerate(used)}
+    A.edges = sorted({(ren[s], L, ren[d]) for s, L, d in A.edges}, key=lambda e: (e[0], str(e[1]), e[2]))
+    A.init = ren[A.init]
+    A.n = len(ren)
 
 
 def successors(ex, A, stack, kmax):
@@ -617,14 +676,23 @@ def successors(ex, A, stack, kmax):
         if v[0] == "V" and v[1] == "Err":
             return [(("panic", "%s %s: unwrap on Err" % (short(fn), bb)), None)]
         raise Unrecognised("unwrap of an untracked value in %s %s" % (fn, bb))
-    if re.match(r"^<.*Result<.*> as (?:std::ops::)?Try>::branch$", c):
+    if re.match(r"^<(?:std::result::)?Result<.*> as (?:std::ops::)?Try>::branch$", c):
         v = ex.operand(env, args[0])
         if v[0] == "V" and v[1] == "Ok":
             return [ret(V("Continue", v[2]))]
         if v[0] == "V" and v[1] == "Err":
             return [ret(V("Break", V("Err", v[2])))]
         raise Unrecognised("Try::branch of an untracked value in %s %s" % (fn, bb))
-    if re.match(r"^<.*Result<.*> as (?:std::ops::)?FromResidual<.*>>::from_residual$", c):
+    if re.match(r"^<(?:std::option::)?Option<.*> as (?:std::ops::)?Try>::branch$", c):
+        v = ex.operand(env, args[0])
+        if v[0] == "V" and v[1] == "Some":
+            return [ret(V("Continue", v[2]))]
+        if v[0] == "V" and v[1] == "None":
+            return [ret(V("Break", V("None")))]
+        raise Unrecognised("Option Try::branch of an untracked value in %s %s" % (fn, bb))
+    if re.match(r"^<(?:std::option::)?Option<.*> as (?:std::ops::)?FromResidual<.*>>::from_residual$", c):
+        return [ret(V("None"))]
+    if re.match(r"^<(?:std::result::)?Result<.*> as (?:std::ops::)?FromResidual<.*>>::from_residual$", c):
         v = ex.operand(env, args[0])
         if v[0] == "V" and v[1] == "Err":
             return [ret(V("Err", v[2]))]
@@ -849,4 +917,4 @@ if __name__ == "__main__":
     for A in (main, reader, job):
         print("== %s: %d states, %d edges, init %d" % (A.role, A.n, len(A.edges), A.init))
         for s, l, d in A.edges:
-            print("   %3d --%s--> %d" % (s, l, d))
+            print("   %3d --%s--> %d" % (s, " ; ".join(str(x) for x in l), d))
